@@ -40,6 +40,8 @@ structure Facts where
   apiDoubleCheck : Bool         -- podRunning asks the API server after the lister said "not running"
   wholeKeyCheck : Bool          -- resync / Release leave a key alone while another record of it belongs to a running pod
   runningChecksUID : Bool       -- runningAndUidMatch compares the stored UID with the pod's
+  bindEnqueuesOnlyOnNotFound : Bool := true  -- Bind queues a release event only when the Binding call answered NotFound
+  finishedChecksPhaseOnly : Bool := true  -- finished(pod) = phase Succeeded / Failed, nothing else (not: being deleted)
 deriving DecidableEq, Repr
 
 /-- the facts as regenerated from the current source tree -/
@@ -52,10 +54,12 @@ def facts : Facts :=
     resyncRechecks := Generated.Plugin.resyncRechecksUnderLock
     apiDoubleCheck := Generated.Plugin.podRunningAsksApiServerSecond
     wholeKeyCheck := Generated.Plugin.resyncAndReleaseCheckWholeKey
-    runningChecksUID := Generated.Plugin.runningAndUidMatchChecksUID }
+    runningChecksUID := Generated.Plugin.runningAndUidMatchChecksUID
+    bindEnqueuesOnlyOnNotFound := Generated.Plugin.bindEnqueuesReleaseOnlyOnNotFound
+    finishedChecksPhaseOnly := Generated.Plugin.finishedChecksPhaseOnly }
 
 /-- the shape the proofs are about -/
-def Facts.good : Facts := ⟨true, true, true, true, true, true, true, true, true⟩
+def Facts.good : Facts := ⟨true, true, true, true, true, true, true, true, true, true, true⟩
 
 /-! ## Subnets and pools -/
 
@@ -234,6 +238,9 @@ structure Pod where
   phase : Phase
   node : String
   handed : List HInfo               -- ipinfos of the binding annotation ([] = not bound by the plugin)
+  -- metadata.deletionTimestamp is set: the pod is inside its deletion grace period - it still exists (API truth, lister),
+  -- its phase is unchanged, its containers may still run and use the address
+  terminating : Bool := false
 deriving DecidableEq, Repr, Inhabited
 
 def Pod.id (p : Pod) : String × String := (p.ns, p.name)
@@ -248,6 +255,10 @@ def keyOf (p : Pod) : Key :=
 def policyOf (p : Pod) : Nat := if p.pool ≠ "" then 2 else if p.policy = 1 ∨ p.policy = 2 then p.policy else 0
 
 def Pod.finished (p : Pod) : Bool := p.phase == .finished
+
+/-- `finished(pod)` as the CODE computes it: phase Succeeded / Failed - and nothing else, as long as the fact holds (the
+    variant that also counts a pod being deleted is the model with the fact false) -/
+def codeFinished (F : Facts) (p : Pod) : Bool := p.finished || (!F.finishedChecksPhaseOnly && p.terminating)
 def Pod.ips (p : Pod) : List IP := p.handed.map (·.ip)
 
 /-- a FloatingIP record (memory and store share the shape) -/
@@ -641,7 +652,7 @@ def queryNodeSubnet (s : State) (node : String) : State × Option Subnet :=
 /-- `runningAndUidMatch` for a found / not-found pod -/
 def runningMatch (F : Facts) (uid : Uid) : Option Pod → Bool
   | none => false
-  | some p => if F.runningChecksUID && uid != 0 && uid != p.uid then false else !p.finished
+  | some p => if F.runningChecksUID && uid != 0 && uid != p.uid then false else !codeFinished F p
 
 /-- `podRunning`: lister first, API server second (an API error counts as running) -/
 def podRunning (F : Facts) (s : State) (pod ns : String) (uid : Uid) : State × Bool :=
@@ -754,9 +765,16 @@ def getAvailableSubnet (s : State) (k : Key) (policy replicas : Nat) (sized : Bo
       else fallback
   else fallback
 
+/-- what happens to Bind's `pods/binding` call on its way: answered truthfully; applied at the server but the response
+    is lost (timeout - the client sees an error and retries); or the apiserver is unavailable for every attempt
+    (500 / timeout, nothing applied) -/
+inductive BindAnswer | truthful | lost | unavailable
+deriving DecidableEq, Repr, Inhabited
+
 structure Choice where
   first : Option IP := none      -- which of several owned addresses `ipInfos[0]` / `ipInfos[:1]` is
   pick : Option IP := none       -- the address AllocateInSubnet / AllocateInSubnetWithKey took
+  answer : BindAnswer := .truthful  -- the fate of Bind's Binding call
 deriving Repr, Inhabited
 
 /-- which owned address comes first out of the map: explicit, or the only one -/
@@ -901,7 +919,8 @@ def bindCommit (s : State) (pod : Pod) (ns name : String) (uid : Nat) (node : St
     ({ (if s.api.2 then s.api.1.api.1 else s.api.1) with
          events := (if s.api.2 then s.api.1.api.1 else s.api.1).events ++ [{ pod := pod }] }, Out.err "not-found")
   | some tp =>
-    if uid ≠ 0 ∧ tp.uid ≠ uid then ((if s.api.2 then s.api.1.api.1 else s.api.1), Out.err "conflict")
+    -- 409 Conflict: the uid precondition fails, or the pod is already assigned to a node
+    if (uid ≠ 0 ∧ tp.uid ≠ uid) ∨ tp.node ≠ "" then ((if s.api.2 then s.api.1.api.1 else s.api.1), Out.err "conflict")
     else
       ({ (if s.api.2 then s.api.1.api.1 else s.api.1) with
            pods := (if s.api.2 then s.api.1.api.1 else s.api.1).pods.set (ns, name)
@@ -916,6 +935,47 @@ def bindGuardIPs (F : Facts) (s : State) (pod : Pod) (infos : List (Option IP)) 
 /-- `bindCommit` under a crash plan: if the process is dead when it would send pods/binding, nothing is written -/
 def bindCommitX (s : State) (pod : Pod) (ns name : String) (uid : Nat) (node : String) (ips : List IP) : State × Out :=
   if s.crashMode && s.api.2 then (s.api.1, Out.err "crashed") else bindCommit s pod ns name uid node ips
+
+/-- the apiserver's answer to the Binding call as Bind's retry loop sees it in the end -/
+inductive BindOutcome | ok | notFound | conflict | otherError | appliedButErrorReturned
+deriving DecidableEq, Repr
+
+/-- the answer, from API truth and the fate of the call: NotFound iff the pod is gone; Conflict iff its uid is not the
+    one of the request or it is already assigned to a node -/
+def bindOutcome (s : State) (ns name : String) (uid : Nat) (ans : BindAnswer) : BindOutcome :=
+  if ans = .unavailable then .otherError
+  else
+    match s.pods.get (ns, name) with
+    | none => .notFound
+    | some tp =>
+      if (uid ≠ 0 ∧ tp.uid ≠ uid) ∨ tp.node ≠ "" then .conflict
+      else if ans = .lost then .appliedButErrorReturned else .ok
+
+/-- queue the release event of the lister's pod (`p.unreleased <- &releaseEvent{pod: pod}`) -/
+def queueRelease (s : State) (pod : Pod) : State := { s with events := s.events ++ [{ pod := pod }] }
+
+/-- the end of Bind: the Binding call and the code's reaction to each answer.
+    * ok: the pod is bound, its annotation written;
+    * NotFound: the retry loop stops and the release event of the lister's pod is queued (`bindCommit` does both);
+    * Conflict / any other error: retried until the 3 s are over, then the error is returned - and NOTHING is queued
+      (fact `bindEnqueuesOnlyOnNotFound`; the variant that also queues on Conflict is the model with the fact false);
+    * applied but error returned: the server has bound the pod, the client retries, every retry is answered
+      "already assigned" (Conflict), the error is returned. -/
+def bindFinish (F : Facts) (s : State) (pod : Pod) (ns name : String) (uid : Nat) (node : String) (ips : List IP)
+    (ans : BindAnswer) : State × Out :=
+  match bindOutcome s ns name uid ans with
+  | .otherError => (s.api.1, Out.err "other")
+  | .ok => bindCommitX s pod ns name uid node ips
+  | .notFound => bindCommitX s pod ns name uid node ips
+  | .conflict =>
+    if F.bindEnqueuesOnlyOnNotFound then bindCommitX s pod ns name uid node ips
+    else (queueRelease (bindCommitX s pod ns name uid node ips).1 pod, (bindCommitX s pod ns name uid node ips).2)
+  | .appliedButErrorReturned =>
+    match (bindCommitX s pod ns name uid node ips).2.res with
+    | .ok =>
+      (if F.bindEnqueuesOnlyOnNotFound then (bindCommitX s pod ns name uid node ips).1
+       else queueRelease (bindCommitX s pod ns name uid node ips).1 pod, Out.err "conflict")
+    | _ => bindCommitX s pod ns name uid node ips
 
 /-- `Bind(args)`; `uid` is `args.PodUID` (the scheduler's view of the pod it binds) -/
 def bind (F : Facts) (s : State) (ns name : String) (uid : Nat) (node : String) (ch : Choice) : State × Out :=
@@ -943,13 +1003,13 @@ def bind (F : Facts) (s : State) (ns name : String) (uid : Nat) (node : String) 
                 ((bindAlloc s pod node { policy := policyOf pod, node := node, uid := pod.uid } infos
                   ch.pick).2.2.filterMap id)).2 with
             | .ok =>
-              bindCommitX (bindLoop (bindAlloc s pod node { policy := policyOf pod, node := node, uid := pod.uid } infos
+              bindFinish F (bindLoop (bindAlloc s pod node { policy := policyOf pod, node := node, uid := pod.uid } infos
                   ch.pick).1 (keyOf pod) node { policy := policyOf pod, node := node, uid := pod.uid }
                   (infos.filterMap id)
                   ((bindAlloc s pod node { policy := policyOf pod, node := node, uid := pod.uid } infos
                     ch.pick).2.2.filterMap id)).1 pod ns name uid node
                 ((bindAlloc s pod node { policy := policyOf pod, node := node, uid := pod.uid } infos
-                  ch.pick).2.2.filterMap id)
+                  ch.pick).2.2.filterMap id) ch.answer
             | e => ((bindLoop (bindAlloc s pod node { policy := policyOf pod, node := node, uid := pod.uid } infos
                   ch.pick).1 (keyOf pod) node { policy := policyOf pod, node := node, uid := pod.uid }
                   (infos.filterMap id)
@@ -1087,6 +1147,9 @@ inductive Move
       (ranges : List (List (Nat × Nat))) (wants : Bool)
   | deletePod (ns name : String)
   | finishPod (ns name : String)
+  -- graceful deletion begins: deletionTimestamp is set, the update event (old, new) reaches UpdatePod at once; the pod
+  -- stays in API truth (and is really deleted by a later `deletePod`)
+  | markTerminating (ns name : String) (fault : Nat)
   | runPod (ns name : String)
   | scale (kind : Kind) (ns app : String) (replicas : Nat)
   | deleteApp (kind : Kind) (ns app : String)
@@ -1148,6 +1211,22 @@ def step (F : Facts) (s : State) : Move → State × Out
         let p' := { p with phase := .finished }
         ({ s with pods := s.pods.set (ns, name) p',
                   events := if wantsEvent p then s.events ++ [{ pod := p' }] else s.events }, {})
+  | .markTerminating ns name fault =>
+    match s.pods.get (ns, name) with
+    | none => (s, Out.err "not-found")
+    | some p =>
+      if p.terminating then (s, Out.err "bad-input")
+      else if !wantsEvent p then ({ s with pods := s.pods.set (ns, name) { p with terminating := true } }, {})
+      else if !codeFinished F p && codeFinished F { p with terminating := true } then
+        -- UpdatePod: `!finished(old) && finished(new)` queues the unbind (only a code whose finished() counts a pod
+        -- being deleted gets here)
+        ({ s with pods := s.pods.set (ns, name) { p with terminating := true },
+                  events := s.events ++ [{ pod := { p with terminating := true } }] }, {})
+      else if p.phase == .running then
+        -- UpdatePod: syncPodIP(newPod)
+        (syncIPs (withFaults { s with pods := s.pods.set (ns, name) { p with terminating := true } } fault 0)
+          { p with terminating := true } p.ips, {})
+      else ({ s with pods := s.pods.set (ns, name) { p with terminating := true } }, {})
   | .runPod ns name =>
     match s.pods.get (ns, name) with
     | none => (s, Out.err "not-found")
